@@ -85,12 +85,17 @@ def _run_one(item):
                     mu, V, tr, herm = sfx.fock_tensor_moments(rho, False, len(ms), st.cutoff_dim)
                     return [_tolist(mu), _tolist(V), tr]
                 _call(out, "reduced:" + key, redf)
-            if cfg != "fock" and cfg != "fockmixed" and len(ms) == 1:
-                # phase-space states also offer reduced_dm in the Fock basis
+            if cfg != "fock" and cfg != "fockmixed" and len(ms) <= 2:
+                # phase-space states also offer reduced_dm in the Fock basis (documented layout: two indices per mode)
                 def reddm():
                     rho = np.asarray(st.reduced_dm(ms, **kw))
-                    mu, V, tr, herm = sfx.fock_tensor_moments(rho, False, 1, rho.shape[0])
-                    return [_tolist(mu), _tolist(V), tr, float(np.real(rho[-1, -1]))]
+                    if rho.ndim != 2 * len(ms) or len(set(rho.shape)) != 1:
+                        raise TypeError("reduced_dm of %d modes has shape %s" % (len(ms), rho.shape))
+                    D = rho.shape[0]
+                    mu, V, tr, herm = sfx.fock_tensor_moments(rho, False, len(ms), D)
+                    diag = np.real(np.einsum("ii->i", rho)) if len(ms) == 1 else np.real(np.einsum("iijj->ij", rho))
+                    last = float(diag[-1]) if len(ms) == 1 else float(diag[-1, :].sum() + diag[:, -1].sum() - diag[-1, -1])
+                    return [_tolist(mu), _tolist(V), tr, last]
                 _call(out, "reduced_dm:" + key, reddm)
         # quadrature distributions (bosonic: marginal, Fock: x_quad_values / p_quad_values) -> mean and variance on a grid
         grid = np.linspace(-14.0, 14.0, 1401)
@@ -190,11 +195,12 @@ def c16(chk):
                        "Wigner = exp(-(r-mu)^T V^-1 (r-mu)/2)/(2 pi sqrt(det V)) (hbar = 2)", "Fock comparisons within the truncation slack"]
     plans = [(3, 1, "q", "e3", 2, [("gaussian", None), ("bosonic", None)]), (2, 1, "q", "e2", 2, [("fock", 12), ("fockmixed", 10)]),
              (3, 0, "q", "p3", 2, [("fock", 10), ("gaussian", None), ("bosonic", None)]), (3, 0, "q", "x3", 2, [("gaussian", None), ("bosonic", None), ("fock", 10)]),
+             (3, 0, "q", "p2", 2, [("gaussian", None), ("bosonic", None), ("fock", 10)]),
              (3, 0, "q", "e3", 3, [("gaussian", None), ("bosonic", None), ("fock", 10), ("fockmixed", 8)])]
     if tier != "quick":
         plans = [(3, 2, "d", "e3", 3, [("gaussian", None), ("bosonic", None)]), (3, 1, "q", "e3", 3, [("gaussian", None), ("bosonic", None), ("fock", 9)]),
                  (2, 2, "q", "e2", 2, [("gaussian", None), ("bosonic", None), ("fock", 12), ("fockmixed", 10)]),
-                 (3, 1, "q", "p3", 2, [("fock", 10), ("fockmixed", 7)]), (3, 1, "q", "x3", 2, [("gaussian", None), ("bosonic", None), ("fock", 10)])]
+                 (3, 1, "q", "p3", 2, [("fock", 10), ("fockmixed", 7)]), (3, 1, "q", "p2", 2, [("gaussian", None), ("bosonic", None), ("fock", 10)]), (3, 1, "q", "x3", 2, [("gaussian", None), ("bosonic", None), ("fock", 10)])]
     per_hist = {}
     for (n, depth, alpha, prefix, maxt, cfgs) in plans:
         r = chk.tlc("MC_Obs", constants={"N": n, "Depth": depth, "AlphaId": alpha, "PrefixId": prefix, "KNum": 1, "KDen": 1, "EMIT": True,
